@@ -726,13 +726,13 @@ evaluate() const {
       // the second one *and* that comes out to be true.
       if (_u._op._operator == OROR && r2._type == RT_integer &&
           r2.as_boolean()) {
-        return r2;
+        return Result(1);
       }
 
       // Ditto for the operator being && and the second one coming out false.
       if (_u._op._operator == ANDAND && r2._type == RT_integer &&
           !r2.as_boolean()) {
-        return r2;
+        return Result(0);
       }
 
       // Also for the operator being [] and the operand being a string.
@@ -809,17 +809,22 @@ evaluate() const {
       return Result(r1.as_integer() & r2.as_integer());
 
     case OROR:
+      // The result of a logical operator is a bool, not one of its operands.
       if (r1.as_boolean()) {
-        return r1;
-      } else {
+        return Result(1);
+      } else if (r2._type == RT_error) {
         return r2;
+      } else {
+        return Result((int)r2.as_boolean());
       }
 
     case ANDAND:
-      if (r1.as_boolean()) {
+      if (!r1.as_boolean()) {
+        return Result(0);
+      } else if (r2._type == RT_error) {
         return r2;
       } else {
-        return r1;
+        return Result((int)r2.as_boolean());
       }
 
     case EQCOMPARE:
